@@ -106,7 +106,11 @@ def items():
            note="Node::tokens().any(token_contains_comments): defines has_comments"),
         Fn(TU, "contains_singleline_comments", mode="stub", sig_edits=[VN], contract="ensures r ==> has_comments(node.key()),",
            note="the same search restricted to line comments: finding one means there is a comment (the converse does not hold)"),
-        Fn(TU, "is_last_stmt_simple", mode="stub", note="decides on the kind of `return` values only; no statement is counted here"),
+        Fn(TU, "is_last_stmt_simple", contract="""
+    // total (C07): the `unreachable!` arm is an obligation over every kind of last statement the feature set knows
+""", edits=[Hole("""LastStmt::Return(r#return) => {
+            r#return.returns().is_empty() || r#return.returns().iter().all(is_expression_simple)
+        }""", "LastStmt::Return(vx_return) => { hole_bool() }", why="iterator chain over the returned values: decides on their kind only (the raw identifier r#return is not named: this Verus panics while encoding it)")]),
         Fn(TU, "is_block_empty", contract="""
     ensures r == (block_len(block) == 0), //# C02.empty_block_is_empty
 """, edits=stmts_holes()),
